@@ -37,6 +37,7 @@ type result struct {
 	terminal bool
 	trace    []string
 	harness  string
+	hung     bool // the execution was abandoned (proven deadlock)
 	empty    bool // every explored stream is closed and its handler gone (the connection is back to "no open stream")
 }
 
@@ -90,6 +91,14 @@ func run(t *testing.T, cfg config, seq []act, keepTrace bool) (res result) {
 	}
 	if br.Deadlock != "" {
 		res.harness = "goroutines blocked forever at the end of the execution: " + br.Deadlock
+	}
+	if br.Hang != "" {
+		res.viol = append(res.viol, ledger.Violation{Kind: "deadlock", Cause: br.Hang,
+			Msg: "the endpoint can never become quiescent again: every goroutine of the connection is blocked and one waits for a mutex nobody will release: " + br.Hang + "\n" + br.HangStack})
+		res.hung = true
+	}
+	if br.Watchdog != "" {
+		res.harness = br.Watchdog
 	}
 	return res
 }
@@ -249,6 +258,7 @@ type found struct {
 type stats struct {
 	states, transitions, runs, terminals, rechecked int64
 	cycles, cycleIters, lassos, unclosed, maxPeriod int64
+	skipped                                         int64
 	maxDepth                                        int
 	depthDone                                       int
 	capped                                          bool
@@ -280,6 +290,10 @@ func explore(t *testing.T, rep *ev.Report, cfg space, deadline time.Time, founds
 	visited := map[string]bool{root.key: true}
 	st.states++
 	frontier := []node{{nil, root.enabled}}
+	// action classes after which the subject was proven dead-locked once in this configuration: every further
+	// transition of the class is skipped (each costs seconds of real time) and counted; the search is then not exhaustive.
+	poisoned := map[string]bool{}
+	class := func(a act) string { return fmt.Sprintf("%s/%v/%d", a.K, a.S >= 0, a.N) }
 	for d := 0; d < cfg.Depth && len(frontier) > 0; d++ {
 		var next []node
 		for _, n := range frontier {
@@ -287,6 +301,10 @@ func explore(t *testing.T, rep *ev.Report, cfg space, deadline time.Time, founds
 				if time.Now().After(deadline) {
 					st.capped = true
 					return
+				}
+				if poisoned[class(a)] {
+					st.skipped++
+					continue
 				}
 				seq := append(append(make([]act, 0, len(n.seq)+1), n.seq...), a)
 				r := cfg.run(t, seq, false)
@@ -304,6 +322,9 @@ func explore(t *testing.T, rep *ev.Report, cfg space, deadline time.Time, founds
 					}
 				}
 				rep.Note("distinct_nontrivial", featureOf(cfg, seq, r))
+				if r.hung {
+					poisoned[class(a)] = true
+				}
 				if len(r.viol) > 0 {
 					noteViol(r, seq)
 					continue
@@ -461,6 +482,14 @@ func amplify(t *testing.T, cfg config, cyc []act, maxIter int, keepTrace bool) (
 	if br.Deadlock != "" {
 		res.harness = "goroutines blocked forever at the end of the execution: " + br.Deadlock
 	}
+	if br.Hang != "" {
+		res.viol = append(res.viol, ledger.Violation{Kind: "deadlock", Cause: br.Hang,
+			Msg: "the endpoint can never become quiescent again: every goroutine of the connection is blocked and one waits for a mutex nobody will release: " + br.Hang + "\n" + br.HangStack})
+		res.hung = true
+	}
+	if br.Watchdog != "" {
+		res.harness = br.Watchdog
+	}
 	return res
 }
 
@@ -597,6 +626,10 @@ func TestCheck(t *testing.T) {
 	rep.Add("cycles_closed_by_lasso", st.lassos)
 	rep.Add("cycles_not_closed", st.unclosed)
 	rep.SetMax("max_lasso_period", st.maxPeriod)
+	rep.Add("transitions_skipped_after_deadlock", st.skipped)
+	if st.skipped > 0 {
+		rep.NotExhaustive(fmt.Sprintf("%d transitions of an action class that dead-locked the subject were skipped", st.skipped))
+	}
 	if st.unclosed > 0 {
 		rep.NotExhaustive(fmt.Sprintf("%d amplified cycles neither repeated a connection state nor broke an invariant within %d repetitions", st.unclosed, ampMaxIter))
 	}
